@@ -224,3 +224,19 @@ package graphql
 //@   loop 1 invariant -1 <= rangeindex && rangeindex < len(sources)
 //@   loop 1 invariant forall k int :: 0 <= k && k <= rangeindex ==> filled[k]
 //@   loop 1 decreases len(sources) - rangeindex
+
+// ---- C15: which pointers of the graphql-go AST the third-party parser always sets (read off
+// github.com/graphql-go/graphql/language/parser at the pinned version; trusted), and two facts about thunder's own
+// tables: the fragment table built by Parse and slices of parsed directives never hold nil.
+//@ nonnil ast.Field.Name, ast.FragmentSpread.Name, ast.Directive.Name, ast.Argument.Name, ast.Argument.Value, ast.Named.Name, ast.Variable.Name, ast.VariableDefinition.Variable, ast.VariableDefinition.Type, ast.ObjectField.Name, ast.ObjectField.Value, ast.FragmentDefinition.Name, ast.FragmentDefinition.TypeCondition, ast.FragmentDefinition.SelectionSet, ast.OperationDefinition.SelectionSet, ast.NonNull.Type, ast.List.Type
+//@ nonnil elem *ast.Field, elem *ast.FragmentSpread, elem *ast.InlineFragment, elem *ast.Directive, elem *ast.Argument, elem *ast.VariableDefinition, elem *ast.ObjectField, elem *ast.OperationDefinition, elem *ast.FragmentDefinition, elem *ast.Variable, elem *ast.IntValue, elem *ast.FloatValue, elem *ast.StringValue, elem *ast.BooleanValue, elem *ast.EnumValue, elem *ast.ListValue, elem *ast.ObjectValue, elem *ast.Named, elem *ast.List, elem *ast.NonNull
+//@ nonnil elem *graphql.Fragment, elem *graphql.Directive
+//@ trusted func parser.Parse
+//@   ensures err == nil ==> result != nil
+
+// Parse: every fragment definition gets an entry in the fragment table before any selection set is converted,
+// and converting selection sets (which only writes Fragment objects) leaves the tables themselves alone.
+//@ func Parse
+//@   keeps map[string]*Fragment, map[string]*ast.FragmentDefinition
+//@   loop 4 invariant forall k string :: visited[k] ==> (k in globalFragments)
+//@   loop 5 invariant forall k string :: (k in fragmentDefinitions) ==> (k in globalFragments)
